@@ -317,6 +317,21 @@ def run(case):
         cmp("volume_highorder", "sum of dV vs the checker's high-order integral of det J", vol, vol_h, tol=1e-10)
     outcomes.add("vol=%.6f" % vol)
 
+    # ---- length units: the same (distorted) body in millimetres / kilometres (members "mm", "km" of the zoo)
+    if member == "distorted" and not kind.startswith("lagrange"):
+        for unit, sc in (("mm", 1e-3), ("km", 1e3)):
+            ms = zoo.make(kind, unit, seed)
+            with warnings.catch_warnings(record=True) as wl:
+                warnings.simplefilter("always")
+                rs = zoo.region(kind, ms, hess=True) if has_hess else zoo.region(kind, ms)
+            cnt["trans"] += 1
+            if [w for w in wl if issubclass(w.category, UserWarning)]:
+                bad(f"units/{unit}/warning", "warning on a valid mesh (scaled)", [str(w.message)[:80] for w in wl], "no warning")
+            cmp(f"units/{unit}/dV", "dV of the body scaled by s = s^dim x dV", np.asarray(rs.dV) / sc**dim, region.dV, tol=1e-11)
+            cmp(f"units/{unit}/dhdX", "dh/dX of the body scaled by s = (dh/dX) / s", np.asarray(rs.dhdX) * sc, region.dhdX, tol=1e-11)
+            if has_hess:
+                cmp(f"units/{unit}/d2hdXdX", "d2h/dXdX of the body scaled by s = (d2h/dXdX) / s^2", np.asarray(rs.d2hdXdX) * sc**2, region.d2hdXdX, tol=1e-10)
+
     # ---- rigid motion invariance
     if dim == 3:
         rots = zoo.cube_rotations()
